@@ -6,25 +6,23 @@ in which the line is replaced by the lines of `f`.
 
 After the repair of INCLUDE handling a missing include file and an inclusion cycle are diagnostics
 (`include_missing_diag`, `include_cycle_diag`); they used to escape as FileNotFoundError / RecursionError.
-The only `internal` outcome left in the expansion stage is exhaustion of the recursion budget: more than
-64 nested distinct files (Python: RecursionError).  That residue is why the equality still carries side
-conditions, and there are two of them:
 
-* the INCLUDE side must not end in `internal`: the nesting below `INCLUDE f` is one level deeper than the
-  nesting of the spliced lines, and an exhausted budget in the lines *before* the INCLUDE is found during
-  expansion, after the whole file has been parsed, whereas after substitution a syntax error inside `f`
-  is found while parsing, before any expansion (`C19_finding_depth_textual`);
-* the substituted side must not end in `internal` either.  This one is caused by cycle detection: with
-  the INCLUDE line the file `f` is in the chain of files being processed while its lines are expanded, so
-  an `INCLUDE f` further down (through any number of files) is reported at once; after substitution `f`
-  is not in the chain, the inner `INCLUDE f` is expanded once more and the cycle is reported one level
-  deeper.  Both sides report a diagnostic — unless the extra level exhausts the budget
-  (`include_textual_rhs_needed`: INCLUDE side `diag`, substituted side `internal`).
+Batch 6: until then the model bounded the nesting of INCLUDE files by a fixed budget of 64 levels (standing for
+Python's RecursionError), and that residue refuted the statement at full strength (`C19_not_full`, through a chain
+of 65 nested files) and forced two side conditions on the equality (`include_textual`), neither of which could be
+dropped (`C19_finding_depth_textual`, `include_textual_rhs_needed`).  The Python code now reports its own recursion
+limit as a diagnostic, and the model's budget is `includeFuel fs` = number of files + 1, which is NEVER exhausted:
+a file that is being included is rejected, so the chain of files being processed holds no file twice
+(`expand_includeFuel_ne_internal`, `front_never_internal` in Lemmas/FrontInclude.lean).  Hence
 
-`include_textual_cases` is the unconditional form (three cases), `include_textual` the equality under the
-two side conditions, `include_textual_ok` the form without side conditions for accepted programs.
-The statement at full strength (`C19_Statement`) stays refuted, now only by programs nesting more than
-64 files (`C19_not_full`).  Helpers are in Lemmas/FrontInclude.lean.
+* `include_textual_full`: the equality without side conditions (clause 1, `C19_textual_full`);
+* `include_missing_full`, `include_cycle_full`: clauses 2 and 3 whatever precedes and follows the INCLUDE;
+* `C19_full : C19_Statement`;
+* `include_textual_star_full`: any number of substitutions at any depth.
+
+The earlier, weaker forms (`include_textual_cases` with its three cases, `include_textual` with its side conditions,
+`include_textual_ok`, `C19_partial`) are kept; they are corollaries.  The former counterexamples are restated with
+what they give now (`*_fixed`).  Helpers are in Lemmas/FrontInclude.lean.
 -/
 import CoCoVerif.Lemmas.FrontInclude
 
@@ -59,7 +57,7 @@ theorem IsInclude.cond {f : Str} {s : Stmt} (h : s.row.isInclude = true ∧ s.op
   subst h2
   simp [h1, h3]
 
-/-! ### the statement at full strength (false for the model: nesting deeper than 64 files) -/
+/-! ### the statement at full strength (a theorem since batch 6: `C19_full`) -/
 
 /-- clause 1: unconditional textual inclusion -/
 def C19_Textual : Prop :=
@@ -80,9 +78,9 @@ def C19_Statement : Prop := C19_Textual ∧ C19_MissingDiag ∧ C19_CycleDiag
 
 /-! ### textual inclusion: what holds -/
 
-/-- Unconditional form.  The two sides agree; or the INCLUDE side exhausts the recursion budget
-(`internal`); or the INCLUDE side reports a diagnostic and the substituted side exhausts the budget
-(a cycle through `f` is reported one level deeper after substitution). -/
+/-- The three-case form that was the unconditional statement while the nesting budget was a fixed 64 levels: the two
+sides agree; or the INCLUDE side exhausts the budget (`internal`); or the INCLUDE side reports a diagnostic and the
+substituted side exhausts the budget.  Since batch 6 only the first case arises (`include_textual_full`); kept. -/
 theorem include_textual_cases (fs : Files) (pre post ls : List Str) (l f : Str)
     (hl : IsInclude l f) (hf : fs.get? f = some ls) :
     assemble fs (pre ++ [l] ++ post) = assemble fs (pre ++ ls ++ post) ∨
@@ -125,10 +123,9 @@ theorem include_textual_front_ok (fs : Files) (pre post ls : List Str) (l f : St
   have h' := front_include_ok hs hc hf hok
   exact ⟨h', assemble_congr (by rw [hok, h'])⟩
 
-/-- Main theorem of C19.  Neither hypothesis can be dropped: see `C19_finding_depth_textual` for the first
-and `include_textual_rhs_needed` for the second.  (Before the repair of INCLUDE handling the first one
-was also needed because of missing files; `include_textual_rhs_needed` is the price of the cycle check:
-"the INCLUDE side does not end in `internal`" alone is not sufficient.) -/
+/-- The main theorem of C19 until batch 6, with its two side conditions (with the fixed budget of 64 levels neither
+could be dropped: the former `C19_finding_depth_textual` and `include_textual_rhs_needed`).  Both hypotheses always hold
+now: `include_textual_full` is the same equality without them.  Kept. -/
 theorem include_textual (fs : Files) (pre post ls : List Str) (l f : Str)
     (hl : IsInclude l f) (hf : fs.get? f = some ls)
     (hne : assemble fs (pre ++ [l] ++ post) ≠ .internal)
@@ -146,7 +143,8 @@ theorem include_textual_ok (fs : Files) (pre post ls : List Str) (l f : Str) (a 
   · rw [hok] at h; cases h
   · rw [hok] at h; cases h
 
-/-- a diagnostic on the INCLUDE side is a diagnostic on the substituted side, unless the budget runs out -/
+/-- a diagnostic on the INCLUDE side is a diagnostic on the substituted side, unless the budget runs out (it does not:
+`include_textual_diag_full`) -/
 theorem include_textual_diag (fs : Files) (pre post ls : List Str) (l f : Str)
     (hl : IsInclude l f) (hf : fs.get? f = some ls)
     (hd : assemble fs (pre ++ [l] ++ post) = .diag) :
@@ -157,7 +155,7 @@ theorem include_textual_diag (fs : Files) (pre post ls : List Str) (l f : Str)
   · exact .inr h
 
 /-- read right to left: a successful assembly of the substituted program is what the INCLUDE gives,
-unless the INCLUDE version exhausts the recursion budget -/
+unless the INCLUDE version exhausts the recursion budget (it does not: `include_textual_conv_full`) -/
 theorem include_textual_conv (fs : Files) (pre post ls : List Str) (l f : Str) (a : Assembly)
     (hl : IsInclude l f) (hf : fs.get? f = some ls)
     (hok : assemble fs (pre ++ ls ++ post) = .ok a) :
@@ -166,6 +164,30 @@ theorem include_textual_conv (fs : Files) (pre post ls : List Str) (l f : Str) (
   · exact .inl (by rw [h, hok])
   · exact .inr h
   · rw [hok] at h; cases h
+
+/-- **C19 clause 1 at full strength: INCLUDE is textual inclusion, without side conditions.**  Both sides run with
+the same nesting budget `includeFuel fs`, which neither exhausts (`front_never_internal`). -/
+theorem include_textual_full (fs : Files) (pre post ls : List Str) (l f : Str)
+    (hl : IsInclude l f) (hf : fs.get? f = some ls) :
+    assemble fs (pre ++ [l] ++ post) = assemble fs (pre ++ ls ++ post) :=
+  include_textual_strong fs pre post ls l f hl hf (front_never_internal fs _) (front_never_internal fs _)
+
+theorem C19_textual_full : C19_Textual := include_textual_full
+
+/-- a diagnostic on the INCLUDE side is a diagnostic on the substituted side (the second case of
+`include_textual_diag` does not arise) -/
+theorem include_textual_diag_full (fs : Files) (pre post ls : List Str) (l f : Str)
+    (hl : IsInclude l f) (hf : fs.get? f = some ls)
+    (hd : assemble fs (pre ++ [l] ++ post) = .diag) :
+    assemble fs (pre ++ ls ++ post) = .diag := by
+  rw [← include_textual_full fs pre post ls l f hl hf, hd]
+
+/-- read right to left (the second case of `include_textual_conv` does not arise) -/
+theorem include_textual_conv_full (fs : Files) (pre post ls : List Str) (l f : Str) (a : Assembly)
+    (hl : IsInclude l f) (hf : fs.get? f = some ls)
+    (hok : assemble fs (pre ++ ls ++ post) = .ok a) :
+    assemble fs (pre ++ [l] ++ post) = .ok a := by
+  rw [include_textual_full fs pre post ls l f hl hf, hok]
 
 /-- `b` is obtained from `a` by replacing INCLUDE lines by file contents, any number of times, at any
 depth -/
@@ -208,6 +230,13 @@ theorem include_textual_starG {fs : Files} {a b : List Str} (h : InlinesG fs a b
     have h1 := include_textual fs _ _ _ _ _ hl hf hne hne'
     rw [h1]
     exact ih hne'
+
+/-- **nested includes at full strength**: any sequence of substitutions, at any depth, any outcome -/
+theorem include_textual_star_full {fs : Files} {a b : List Str} (h : Inlines fs a b) :
+    assemble fs a = assemble fs b := by
+  induction h with
+  | refl a => rfl
+  | step hl hf _ ih => exact (include_textual_full fs _ _ _ _ _ hl hf).trans ih
 
 /-- the depth-2 instance: `f` itself contains an `INCLUDE f'` line -/
 theorem include_textual_nested (fs : Files) (pre post pre' post' ls' : List Str) (l f l' f' : Str)
@@ -291,7 +320,7 @@ theorem include_diag_up (fs : Files) (n : Nat) (inc : List Str) (pre post e pg :
 `assemble` ends in `diag` (was: `internal`, FileNotFoundError escaping). -/
 theorem include_missing_diag (fs : Files) (pre post : List Str) (l f : Str) (rp rq e : List Stmt)
     (hl : IsInclude l f) (hf : fs.get? f = none)
-    (hp : parseLines pre = .ok rp) (hq : parseLines post = .ok rq) (he : expand fs 64 [] rp = .ok e) :
+    (hp : parseLines pre = .ok rp) (hq : parseLines post = .ok rq) (he : expand fs (includeFuel fs) [] rp = .ok e) :
     assemble fs (pre ++ [l] ++ post) = .diag := by
   obtain ⟨s, hs, h⟩ := hl
   have hc := IsInclude.cond h
@@ -306,13 +335,38 @@ theorem include_cycle_diag (fs : Files) (pre post pre0 post0 : List Str) (l f : 
     (hl : IsInclude l f) (hf : fs.get? f = some (pre ++ [l] ++ post))
     (hp : parseLines pre = .ok rp) (hnp : ∀ x ∈ rp, x.row.isInclude = false)
     (hq : parseLines post = .ok rq)
-    (hp0 : parseLines pre0 = .ok rp0) (hq0 : parseLines post0 = .ok rq0) (he : expand fs 64 [] rp0 = .ok e) :
+    (hp0 : parseLines pre0 = .ok rp0) (hq0 : parseLines post0 = .ok rq0) (he : expand fs (includeFuel fs) [] rp0 = .ok e) :
     assemble fs (pre0 ++ [l] ++ post0) = .diag := by
   obtain ⟨s, hs, h⟩ := hl
   have hc := IsInclude.cond h
   obtain ⟨_, h2, _⟩ := h
   subst h2
   exact front_diag (front_self_include hs hc hf hp hnp hq hp0 hq0 he)
+
+/-- **C19 clause 2 at full strength**: an INCLUDE of a file that does not exist is a diagnostic, whatever precedes
+and follows it (the lines before it end in a result or a diagnostic, never in an exhausted nesting budget) -/
+theorem include_missing_full (fs : Files) (pre post : List Str) (l f : Str)
+    (hl : IsInclude l f) (hf : fs.get? f = none) :
+    assemble fs (pre ++ [l] ++ post) = .diag := by
+  obtain ⟨s, hs, h⟩ := hl
+  have hc := IsInclude.cond h
+  obtain ⟨_, h2, _⟩ := h
+  subst h2
+  exact front_diag (front_missing_full hs hc hf)
+
+/-- **C19 clause 3 at full strength**: a file whose only line includes the file itself is a diagnostic, whatever
+precedes and follows the INCLUDE -/
+theorem include_cycle_full (fs : Files) (pre post : List Str) (l f : Str)
+    (hl : IsInclude l f) (hf : fs.get? f = some [l]) :
+    assemble fs (pre ++ [l] ++ post) = .diag := by
+  obtain ⟨s, hs, h⟩ := hl
+  have hc := IsInclude.cond h
+  obtain ⟨_, h2, _⟩ := h
+  subst h2
+  exact front_diag (front_self_include_full hs hc hf)
+
+/-- **C19 at full strength** (was refuted until batch 6, `C19_not_full`, by programs nesting more than 64 files) -/
+theorem C19_full : C19_Statement := ⟨include_textual_full, include_missing_full, include_cycle_full⟩
 
 /-! ### concrete witnesses -/
 
@@ -327,8 +381,8 @@ theorem isInclude_incB : IsInclude incB "b.asm".toList := isInclude_of_check (by
 set_option maxRecDepth 100000 in
 theorem isInclude_incM : IsInclude incM "m.asm".toList := isInclude_of_check (by decide)
 
-theorem expand_nil (fs : Files) (inc : List Str) : expand fs 64 inc [] = .ok [] := by
-  rw [show (64 : Nat) = 63 + 1 from rfl, expand_succ, go_nil]
+theorem expand_nil (fs : Files) (inc : List Str) : expand fs (includeFuel fs) inc [] = .ok [] := by
+  rw [show includeFuel fs = fs.length + 1 from rfl, expand_succ, go_nil]
 
 /-- missing file: `INCLUDE a.asm` with an empty host file system -/
 theorem missing_example : assemble [] [incA] = .diag :=
@@ -348,13 +402,13 @@ theorem cycle2_example :
   unfold front
   rw [parseLines_single_some ha]
   -- the top-level INCLUDE a.asm: its lines end in `diag` under the chain [a.asm] ...
-  refine include_diag_up _ 63 [] [] [] [] [sb] sa _ [incB] hsa (by simp) (by decide)
+  refine include_diag_up _ 2 [] [] [] [] [sb] sa _ [incB] hsa (by simp) (by decide)
     (parseLines_single_some hb) ?_ (expand_nil _ _)
   -- ... because INCLUDE b.asm does, under the chain [a.asm, b.asm] ...
-  refine include_diag_up _ 62 _ [] [] [] [sa] sb _ [incA] hsb (by decide) (by decide)
+  refine include_diag_up _ 1 _ [] [] [] [sa] sb _ [incA] hsb (by decide) (by decide)
     (parseLines_single_some ha) ?_ (by rw [expand_succ, go_nil])
   -- ... where INCLUDE a.asm is an INCLUDE of a file in the chain
-  exact include_cycle_diag_expand _ 61 _ [] [] [] sa _ hsa (by decide) (by rw [expand_succ, go_nil])
+  exact include_cycle_diag_expand _ 0 _ [] [] [] sa _ hsa (by decide) (by rw [expand_succ, go_nil])
 
 def bogus : Str := " BOGUS\n".toList
 
@@ -379,10 +433,14 @@ theorem order_example :
       simp [parseLines, hm, parseLine_bogus]
     rw [assemble_eq, front, this]
 
-/-! ### the residue: more than 64 nested files
+/-! ### the former residue: more than 64 nested files
 
 `D` is a file without INCLUDE, `DD` includes `D`, `DDD` includes `DD`, ... (65 files).  `INCLUDE D⁶⁴`
-(64 letters; 64 files below the program) exhausts the recursion budget. -/
+(64 letters; 64 files below the program) exhausted the recursion budget of 64 levels that the model had until
+batch 6; these programs were the counterexamples to `C19_Statement` (`C19_not_full`).  The budget is now
+`includeFuel fs` (one more than the number of files), which is never exhausted
+(`expand_includeFuel_ne_internal`): the same witnesses are restated below (`*_fixed`) with what they give now, and
+`C19_Statement` is a theorem (`C19_full`). -/
 
 def deepName (i : Nat) : Str := List.replicate (i + 1) 'D'
 def deepLine (i : Nat) : Str := " INCLUDE ".toList ++ deepName i ++ ['\n']
@@ -416,9 +474,11 @@ theorem deepName_ne {j : Nat} {c : Char} {t : Str} (hc : c ≠ 'D') : deepName j
   rw [deepName, List.replicate_succ] at h
   exact hc (List.cons.inj h).1.symm
 
-/-- fuel needed below an `INCLUDE` of the `k`-th chain file -/
-theorem deep_expandOne {fs : Files} (h : deepOk fs = true) :
-    ∃ p0 : List Stmt, ∀ k ≤ 64, ∀ s : Stmt, (s.row.isInclude && !s.operand.text.isEmpty) = true →
+/-- fuel needed below an `INCLUDE` of the `k`-th chain file; `p0` are the statements of the innermost file -/
+theorem deep_expandOne_base {fs : Files} (h : deepOk fs = true) :
+    ∃ (ls0 : List Str) (p0 : List Stmt), fs.get? (deepName 0) = some ls0 ∧ parseLines ls0 = .ok p0 ∧
+      (∀ x ∈ p0, x.row.isInclude = false) ∧
+      ∀ k ≤ 64, ∀ s : Stmt, (s.row.isInclude && !s.operand.text.isEmpty) = true →
       s.operand.text = deepName k → ∀ (n : Nat) (I : List Str), (∀ j ≤ k, deepName j ∉ I) →
       expandOne fs n I s = if n ≤ k then .internal else .ok p0 := by
   unfold deepOk at h
@@ -429,11 +489,12 @@ theorem deep_expandOne {fs : Files} (h : deepOk fs = true) :
   · rename_i ls0 hf0
     split at hb
     · rename_i s0 hp0
-      refine ⟨[s0], expandOne_deep fs deepName 64 [s0] ⟨ls0, hf0, hp0⟩ ?_ ?_ ?_⟩
-      · intro x hx
+      have hpl : ∀ x ∈ [s0], x.row.isInclude = false := by
+        intro x hx
         simp only [List.mem_singleton] at hx
         subst hx
         simpa using hb
+      refine ⟨ls0, [s0], hf0, hp0, hpl, expandOne_deep fs deepName 64 [s0] ⟨ls0, hf0, hp0⟩ hpl ?_ ?_⟩
       · intro i hi
         have := hl i hi
         unfold linkOk at this
@@ -450,16 +511,23 @@ theorem deep_expandOne {fs : Files} (h : deepOk fs = true) :
     · cases hb
   · cases hb
 
-/-- a program whose first line is an INCLUDE that exhausts the budget ends in `internal`, if the rest
-parses -/
-theorem deep_prefix_internal {fs : Files} {l : Str} {s : Stmt} {rest : List Str} {rq : List Stmt}
-    (hl : parseLine l = .ok (some s)) (hgo : expandOne fs 63 [] s = .internal)
-    (hq : parseLines rest = .ok rq) : assemble fs ([l] ++ rest) = .internal := by
-  apply front_internal
+/-- fuel needed below an `INCLUDE` of the `k`-th chain file -/
+theorem deep_expandOne {fs : Files} (h : deepOk fs = true) :
+    ∃ p0 : List Stmt, ∀ k ≤ 64, ∀ s : Stmt, (s.row.isInclude && !s.operand.text.isEmpty) = true →
+      s.operand.text = deepName k → ∀ (n : Nat) (I : List Str), (∀ j ≤ k, deepName j ∉ I) →
+      expandOne fs n I s = if n ≤ k then .internal else .ok p0 := by
+  obtain ⟨_, p0, _, _, _, h⟩ := deep_expandOne_base h
+  exact ⟨p0, h⟩
+
+/-- RESTATED (was `deep_prefix_internal`, with the hypothesis `expandOne fs 63 [] s = .internal`, which cannot hold
+for the budget `includeFuel fs`): a program whose first line is an INCLUDE that expands to `p`, if the rest parses -/
+theorem deep_prefix_fixed {fs : Files} {l : Str} {s : Stmt} {rest : List Str} {rq p : List Stmt}
+    (hl : parseLine l = .ok (some s)) (hgo : expandOne fs fs.length [] s = .ok p)
+    (hq : parseLines rest = .ok rq) :
+    front fs ([l] ++ rest) = oapp (.ok p) (expand.go fs fs.length [] rq) := by
   have hp : parseLines ([l] ++ rest) = .ok ([s] ++ rq) := by
     rw [parseLines_append, parseLines_single_some hl, hq]; rfl
   rw [front_of_parsed hp, go_append, go_single, hgo]
-  rfl
 
 /-- host files: the chain, `a.asm` = `INCLUDE a.asm`, `b.asm` = a syntax error, `f.asm` = `INCLUDE D⁶²`
 then `INCLUDE g.asm`, `g.asm` = `INCLUDE f.asm`; no `m.asm` -/
@@ -473,6 +541,9 @@ def fsDeep : Files :=
 set_option maxRecDepth 1000000 in
 theorem fsDeep_ok : deepOk fsDeep = true := by decide +kernel
 
+/-- 69 files: the nesting budget of `assemble fsDeep` is 70 levels -/
+theorem fsDeep_length : fsDeep.length = 69 := by decide +kernel
+
 set_option maxRecDepth 1000000 in
 theorem isInclude_deep63 : IsInclude (deepLine 63) (deepName 63) := isInclude_of_check (by decide +kernel)
 set_option maxRecDepth 1000000 in
@@ -482,67 +553,61 @@ theorem isInclude_incF : IsInclude incF "f.asm".toList := isInclude_of_check (by
 set_option maxRecDepth 100000 in
 theorem isInclude_incG : IsInclude incG "g.asm".toList := isInclude_of_check (by decide)
 
-/-- `INCLUDE D⁶⁴` followed by anything that parses: `internal` -/
-theorem deep63_internal {rest : List Str} {rq : List Stmt} (hq : parseLines rest = .ok rq) :
-    assemble fsDeep ([deepLine 63] ++ rest) = .internal := by
+/-- the only line of the innermost chain file -/
+def nopLine : Str := " NOP\n".toList
+
+/-- RESTATED (was `deep63_internal`: `… = .internal` when `rest` parses): `INCLUDE D⁶⁴` followed by anything is
+the program `NOP` followed by the same lines — 64 files below the program are expanded, the budget is 70 levels -/
+theorem deep63_fixed {rest : List Str} :
+    assemble fsDeep ([deepLine 63] ++ rest) = assemble fsDeep ([nopLine] ++ rest) := by
+  apply assemble_congr
   obtain ⟨s, hs, h⟩ := isInclude_deep63
-  obtain ⟨p0, hdeep⟩ := deep_expandOne fsDeep_ok
-  refine deep_prefix_internal hs ?_ hq
-  rw [hdeep 63 (by omega) s (IsInclude.cond h) h.2.1 63 [] (by simp), if_pos (Nat.le_refl _)]
+  obtain ⟨ls0, p0, hf0, hp0, hpl, hdeep⟩ := deep_expandOne_base fsDeep_ok
+  have hf0' : fsDeep.get? (deepName 0) = some [nopLine] := by decide +kernel
+  rw [hf0'] at hf0
+  cases hf0
+  unfold front
+  rw [parseLines_append, parseLines_append, parseLines_single_some hs, hp0]
+  rcases parseLines_ok_or_diag rest with ⟨rq, hq⟩ | hq <;> rw [hq]
+  · simp only [oapp_ok_ok]
+    rw [show includeFuel fsDeep = fsDeep.length + 1 from rfl, expand_succ, expand_succ, go_append, go_append,
+      go_single, go_plain _ _ _ p0 hpl,
+      hdeep 63 (by omega) s (IsInclude.cond h) h.2.1 fsDeep.length [] (by simp),
+      if_neg (by rw [fsDeep_length]; omega)]
+  · rfl
 
-/-- Residual finding 1: a missing file after a line that nests too deep is not diagnosed -/
-theorem C19_finding_depth_missing : ¬ C19_MissingDiag := by
-  intro h
-  have h1 := h fsDeep [deepLine 63] [] incM _ isInclude_incM (by decide +kernel)
-  obtain ⟨sm, hm, _⟩ := isInclude_incM
-  have h2 := deep63_internal (rest := [incM] ++ []) (parseLines_single_some hm)
-  rw [← List.append_assoc] at h2
-  rw [h2] at h1
-  cases h1
+/-- RESTATED (was `C19_finding_depth_missing : ¬ C19_MissingDiag`, "a missing file after a line that nests too deep is
+not diagnosed"): the same program is a diagnostic now -/
+theorem C19_finding_depth_missing_fixed : assemble fsDeep ([deepLine 63] ++ [incM] ++ []) = .diag :=
+  include_missing_full fsDeep [deepLine 63] [] incM _ isInclude_incM (by decide +kernel)
 
-/-- Residual finding 2: nor is a file that includes itself -/
-theorem C19_finding_depth_cycle : ¬ C19_CycleDiag := by
-  intro h
-  have h1 := h fsDeep [deepLine 63] [] incA _ isInclude_incA (by decide +kernel)
-  obtain ⟨sa, ha, _⟩ := isInclude_incA
-  have h2 := deep63_internal (rest := [incA] ++ []) (parseLines_single_some ha)
-  rw [← List.append_assoc] at h2
-  rw [h2] at h1
-  cases h1
+/-- RESTATED (was `C19_finding_depth_cycle : ¬ C19_CycleDiag`): a file that includes itself, after a line that nests
+64 files deep, is a diagnostic now -/
+theorem C19_finding_depth_cycle_fixed : assemble fsDeep ([deepLine 63] ++ [incA] ++ []) = .diag :=
+  include_cycle_full fsDeep [deepLine 63] [] incA _ isInclude_incA (by decide +kernel)
 
-/-- Residual finding 3 (detection order): `INCLUDE D⁶⁴` followed by `INCLUDE b.asm`, where `b.asm` holds
-a syntax error.  With the INCLUDE the exhausted budget is hit first, during expansion: `internal`; after
-substituting the text of `b.asm` the syntax error is found first, during parsing: `diag`.  So the first
-side condition of `include_textual` cannot be dropped. -/
-theorem depth_order_example :
-    assemble fsDeep ([deepLine 63] ++ [incB] ++ []) = .internal ∧
+/-- RESTATED (was `depth_order_example`: `.internal` with the INCLUDE, `.diag` after substitution): `INCLUDE D⁶⁴`
+followed by `INCLUDE b.asm`, where `b.asm` holds a syntax error.  With the INCLUDE the syntax error is found during
+expansion, after substitution during parsing: a diagnostic on both sides. -/
+theorem depth_order_example_fixed :
+    assemble fsDeep ([deepLine 63] ++ [incB] ++ []) = .diag ∧
     assemble fsDeep ([deepLine 63] ++ [bogus] ++ []) = .diag := by
-  constructor
-  · obtain ⟨sb, hb, _⟩ := isInclude_incB
-    have h2 := deep63_internal (rest := [incB] ++ []) (parseLines_single_some hb)
-    rw [← List.append_assoc] at h2
-    exact h2
-  · obtain ⟨s, hs, _⟩ := isInclude_deep63
+  have h2 : assemble fsDeep ([deepLine 63] ++ [bogus] ++ []) = .diag := by
+    obtain ⟨s, hs, _⟩ := isInclude_deep63
     have : parseLines ([deepLine 63] ++ [bogus] ++ []) = .diag := by
       simp [parseLines, hs, parseLine_bogus]
     rw [assemble_eq, front, this]
+  refine ⟨?_, h2⟩
+  rw [include_textual_full fsDeep [deepLine 63] [] [bogus] incB _ isInclude_incB (by decide +kernel), h2]
 
-theorem C19_finding_depth_textual : ¬ C19_Textual := by
-  intro h
-  have := h fsDeep [deepLine 63] [] [bogus] incB _ isInclude_incB (by decide +kernel)
-  rw [depth_order_example.1, depth_order_example.2] at this
-  cases this
-
-theorem C19_not_full : ¬ C19_Statement := fun h => C19_finding_depth_textual h.1
-
-/-- The second side condition of `include_textual` cannot be dropped.  `f.asm` is `INCLUDE D⁶²`,
-`INCLUDE g.asm`, and `g.asm` is `INCLUDE f.asm`.  The program `INCLUDE f.asm` ends in `diag`: `D⁶²` is
-expanded with budget to spare, then `g.asm` hits `INCLUDE f.asm` while `f.asm` is in the chain.  The
-program consisting of the lines of `f.asm` has no `f.asm` in the chain: `g.asm` expands `f.asm` once more,
-two levels further down, where `INCLUDE D⁶²` exhausts the budget before the cycle is reported. -/
-theorem include_textual_rhs_needed :
+/-- RESTATED (was `include_textual_rhs_needed`: INCLUDE side `.diag`, substituted side `.internal`).  `f.asm` is
+`INCLUDE D⁶²`, `INCLUDE g.asm`, and `g.asm` is `INCLUDE f.asm`.  The program `INCLUDE f.asm` ends in `diag`: `D⁶²` is
+expanded, then `g.asm` hits `INCLUDE f.asm` while `f.asm` is in the chain.  The program consisting of the lines of
+`f.asm` has no `f.asm` in the chain: `g.asm` expands `f.asm` once more, two levels further down, and the cycle is
+reported there: `diag` as well. -/
+theorem include_textual_rhs_needed_fixed :
     assemble fsDeep ([] ++ [incF] ++ []) = .diag ∧
-    assemble fsDeep ([] ++ [deepLine 61, incG] ++ []) = .internal := by
+    assemble fsDeep ([] ++ [deepLine 61, incG] ++ []) = .diag := by
   obtain ⟨sf, hf, hsf⟩ := isInclude_incF
   obtain ⟨sg, hg, hsg⟩ := isInclude_incG
   obtain ⟨sd, hd, hsd⟩ := isInclude_deep61
@@ -555,51 +620,23 @@ theorem include_textual_rhs_needed :
   have hpF : parseLines [deepLine 61, incG] = .ok [sd, sg] := by simp [parseLines, hd, hg]
   have hpG : parseLines [incF] = .ok [sf] := parseLines_single_some hf
   have hnf : ∀ j, deepName j ≠ "f.asm".toList := fun j => deepName_ne (by decide)
-  have hng : ∀ j, deepName j ≠ "g.asm".toList := fun j => deepName_ne (by decide)
-  have hd62 : ∀ I, (∀ j ≤ 61, deepName j ∉ I) → expandOne fsDeep 62 I sd = .ok p0 := fun I hI => by
-    rw [hdeep 61 (by omega) sd hcd hsd.2.1 62 I hI, if_neg (by omega)]
-  have hd63 : expandOne fsDeep 63 [] sd = .ok p0 := by
-    rw [hdeep 61 (by omega) sd hcd hsd.2.1 63 [] (by simp), if_neg (by omega)]
-  have hd61 : ∀ I, (∀ j ≤ 61, deepName j ∉ I) → expandOne fsDeep 61 I sd = .internal := fun I hI => by
-    rw [hdeep 61 (by omega) sd hcd hsd.2.1 61 I hI, if_pos (by omega)]
-  constructor
-  · apply front_diag
-    rw [show ([] : List Str) ++ [incF] ++ [] = [incF] from rfl, front_of_parsed hpG, go_single,
+  have hd68 : ∀ I, (∀ j ≤ 61, deepName j ∉ I) → expandOne fsDeep 68 I sd = .ok p0 := fun I hI => by
+    rw [hdeep 61 (by omega) sd hcd hsd.2.1 68 I hI, if_neg (by omega)]
+  have h1 : assemble fsDeep ([] ++ [incF] ++ []) = .diag := by
+    apply front_diag
+    rw [show ([] : List Str) ++ [incF] ++ [] = [incF] from rfl, front_of_parsed hpG, fsDeep_length, go_single,
       expandOne_some hcf (by simp) hgetf, hpF]
-    show expand fsDeep 63 _ [sd, sg] = _
-    rw [expand_succ, go_cons, go_single, hd62 _ (by
+    show expand fsDeep 69 _ [sd, sg] = _
+    rw [expand_succ, go_cons, go_single, hd68 _ (by
         intro j _; simp only [List.nil_append, List.mem_singleton]; rw [hsf.2.1]; exact hnf j),
       expandOne_some hcg (by rw [hsg.2.1, hsf.2.1]; decide) hgetg, hpG]
-    show oapp _ (expand fsDeep 62 _ [sf]) = _
+    show oapp _ (expand fsDeep 68 _ [sf]) = _
     rw [expand_succ, go_single, expandOne_cycle hcf (by simp)]
     rfl
-  · apply front_internal
-    rw [show ([] : List Str) ++ [deepLine 61, incG] ++ [] = [deepLine 61, incG] from rfl,
-      front_of_parsed hpF, go_cons, go_single, hd63,
-      expandOne_some hcg (by simp) hgetg, hpG]
-    show oapp _ (expand fsDeep 63 _ [sf]) = _
-    rw [expand_succ, go_single, expandOne_some hcf (by rw [hsg.2.1, hsf.2.1]; decide) hgetf, hpF]
-    show oapp _ (expand fsDeep 62 _ [sd, sg]) = _
-    rw [expand_succ, go_cons, hd61 _ (by
-        intro j _
-        simp only [List.nil_append, List.mem_append, List.mem_singleton, not_or]
-        rw [hsg.2.1, hsf.2.1]
-        exact ⟨hng j, hnf j⟩)]
-    rfl
+  refine ⟨h1, ?_⟩
+  rw [← include_textual_full fsDeep [] [] [deepLine 61, incG] incF _ isInclude_incF (by decide +kernel), h1]
 
-/-- ... as a statement about `include_textual`: "the INCLUDE side does not end in `internal`" is not
-sufficient for the equality -/
-theorem include_textual_lhs_not_sufficient :
-    ¬ ∀ (fs : Files) (pre post ls : List Str) (l f : Str), IsInclude l f → fs.get? f = some ls →
-      assemble fs (pre ++ [l] ++ post) ≠ .internal →
-      assemble fs (pre ++ [l] ++ post) = assemble fs (pre ++ ls ++ post) := by
-  intro h
-  have := h fsDeep [] [] [deepLine 61, incG] incF _ isInclude_incF (by decide +kernel)
-    (by rw [include_textual_rhs_needed.1]; simp)
-  rw [include_textual_rhs_needed.1, include_textual_rhs_needed.2] at this
-  cases this
-
-/-! ### the partial statement that is proved -/
+/-! ### the partial statement that was proved before batch 6 (kept; `C19_full` is the full statement) -/
 
 def C19_Partial : Prop :=
   -- textual inclusion, unconditional three-way form
@@ -618,7 +655,7 @@ def C19_Partial : Prop :=
     assemble fs a = assemble fs b) ∧
   -- a missing file is a diagnostic
   (∀ (fs : Files) (pre post : List Str) (l f : Str) (rp rq e : List Stmt), IsInclude l f →
-    fs.get? f = none → parseLines pre = .ok rp → parseLines post = .ok rq → expand fs 64 [] rp = .ok e →
+    fs.get? f = none → parseLines pre = .ok rp → parseLines post = .ok rq → expand fs (includeFuel fs) [] rp = .ok e →
     assemble fs (pre ++ [l] ++ post) = .diag) ∧
   -- an INCLUDE of a file in the chain of files being processed is a diagnostic
   (∀ (fs : Files) (n : Nat) (inc : List Str) (pre post e : List Stmt) (s : Stmt) (f : Str),
@@ -627,7 +664,7 @@ def C19_Partial : Prop :=
   -- a file that includes itself is a diagnostic
   (∀ (fs : Files) (pre0 post0 : List Str) (l f : Str) (rp0 rq0 e : List Stmt), IsInclude l f →
     fs.get? f = some [l] → parseLines pre0 = .ok rp0 → parseLines post0 = .ok rq0 →
-    expand fs 64 [] rp0 = .ok e → assemble fs (pre0 ++ [l] ++ post0) = .diag)
+    expand fs (includeFuel fs) [] rp0 = .ok e → assemble fs (pre0 ++ [l] ++ post0) = .diag)
 
 theorem C19_partial : C19_Partial :=
   ⟨include_textual_cases, include_textual,
